@@ -269,6 +269,12 @@ def gen_cases(thorough):
     add([TypeDef("Gt", "T", struct=Shape("tuple", [F(None, "T"), F(None, "i32")])), TypeDef("Gn", "T", struct=Shape("named", [F("a", "T"), F("b", "Option<T>")])),
          TypeDef("Ge", "T", variants=[("A", Shape("tuple", [F(None, "T")])), ("B", Shape("named", [F("x", "Vec<T>")])), ("C", Shape("unit", []))])],
         ['Gt(In1(1, "a\\nb"), 2)', "Gt(3u8, 4)", 'Gn { a: "s", b: Some("t") }', "Ge::A(5i64)", "Ge::<i32>::B { x: vec![6, 7] }", "Ge::<()>::C"], "generic types")
+    # D2. type parameters inside compound field types next to concrete components
+    add([TypeDef("Gm", "T", struct=Shape("tuple", [F(None, "(&'static str, T)"), F(None, "Vec<(usize, T)>"), F(None, "Option<(T, u8, T)>")])),
+         TypeDef("Gk", "T", struct=Shape("named", [F("a", "[(T, i32); 2]"), F("b", "((T, T), (bool, [T; 1]))")])),
+         TypeDef("Gv", "T", variants=[("A", Shape("tuple", [F(None, "(i32, T)")])), ("B", Shape("named", [F("x", "Option<(T, &'static str)>")]))])],
+        ['Gm(("k", 1u8), vec![(1, 2u8)], Some((3u8, 4, 5u8)))', 'Gm(("k", In1(1, "x\\ny")), vec![], None)', "Gk { a: [(1i64, 2), (3, 4)], b: ((5, 6), (true, [7])) }",
+         "Gv::A((1, 2u8))", 'Gv::<i32>::B { x: Some((3, "s")) }'], "generic types with compound field types")
     # E. nesting depth 2 (all combinations of tuple/named at three levels)
     for o, m, i in itertools.product(("tuple", "named"), repeat=3):
         inner = TypeDef("Ni", struct=Shape(i, [F("p" if i == "named" else None, "i32"), F("q" if i == "named" else None, "&'static str")]))
